@@ -1,6 +1,7 @@
 import Driver.Smt
 import Driver.Fk
 import Driver.ModelMode
+import Driver.FramesMode
 /-! `osmt-model <mode> <file>`: line-protocol driver around the executable models and kernels. -/
 def main (args : List String) : IO UInt32 := do
   match args with
@@ -11,6 +12,10 @@ def main (args : List String) : IO UInt32 := do
   | ["model", path] =>
     let txt ← IO.FS.readFile path
     for l in Driver.runModel (txt.splitOn "\n") do IO.println l
+    return 0
+  | ["frames", path] =>
+    let txt ← IO.FS.readFile path
+    for l in Driver.runFrames (txt.splitOn "\n") do IO.println l
     return 0
   | ["fk", path] =>
     let txt ← IO.FS.readFile path
